@@ -2,7 +2,7 @@
 import copy
 import z3
 from . import smt
-from .values import SV, Ref, Rope, SymSeq, Ext, ExcVal, z, tag_of
+from .values import SV, Ref, Rope, SymSeq, Ext, ExcVal, OptV, z, tag_of
 
 
 class Undecided(Exception):
@@ -229,6 +229,8 @@ class Ctx:
         if k == "const":
             return shape[1]
         if k == "opt":
+            return OptV(smt.fresh(smt.Bool, hint + ".isnone"), self.fresh(shape[1], hint))
+        if k == "opt!":
             if self.choose(2) == 0:
                 return None
             return self.fresh(shape[1], hint)
@@ -248,8 +250,18 @@ class Ctx:
             return self.new_ext(shape[1])
         raise Undecided(f"unknown shape {shape!r}")
 
+    def force(self, v):
+        """Decide the None-ness of a lazily optional value (forks the path if it is still open)."""
+        while isinstance(v, OptV):
+            v = None if self.branch(v.isnone) else v.val
+        return v
+
     def havoc_like(self, v, hint="h"):
         """Fresh value with the same tag as v (for loop targets)."""
+        if isinstance(v, OptV):
+            return OptV(smt.fresh(smt.Bool, hint + ".isnone"), self.havoc_like(v.val, hint))
+        if isinstance(v, Ext):
+            return self.new_ext(v.kind)
         if isinstance(v, SV):
             return SV(v.tag, smt.fresh(v.t.sort(), hint), v.sub)
         t = tag_of(v)
